@@ -61,18 +61,68 @@ Proof.
   - rewrite rm_comps_get in Hg. destruct (mem_N k ks); [discriminate|]. exact (Hold k cv c E Hg Hs).
 Qed.
 
+Lemma mem_keys_get {V} k (l : list (N * V)) :
+  mem_N k (map fst l) = match al_get k l with Some _ => true | None => false end.
+Proof.
+  induction l as [|[k0 v0] t IH]; cbn [map fst al_get]; [reflexivity|]. rewrite mem_N_cons, IH.
+  rewrite (N.eqb_sym k k0). destruct (k0 =? k); reflexivity.
+Qed.
+
+Lemma wr_comps_mem vals base k : NoDup (map fst vals) ->
+  mem_N k (map fst (wr_comps vals base)) = mem_N k (map fst vals) || mem_N k (map fst base).
+Proof.
+  intros Hnd. rewrite !mem_keys_get, (wr_comps_get vals base k Hnd). destruct (al_get k vals); [reflexivity|].
+  destruct (al_get k base); reflexivity.
+Qed.
+
 Section CliInv.
   Variable SN : N -> N -> server -> Prop.
   Hypothesis SNinj : forall t1 r1 s1 t2 r2 s2, SN t1 r1 s1 -> SN t2 r2 s2 ->
     (r1 = r2 -> t1 = t2 /\ s1 = s2) /\ (r1 < r2 -> t1 < t2).
   Hypothesis SNkeep : forall t1 r1 s1 t2 r2 s2, SN t1 r1 s1 -> SN t2 r2 s2 -> r1 <= r2 -> keeps r1 s1 s2.
   Hypothesis SNsmall : forall t r s1, SN t r s1 -> small_tick t.
+  Hypothesis SNwf : forall t r s1, SN t r s1 -> ents_wf s1.
 
   (* ticks and stamps of snapshots are ordered alike *)
   Lemma SN_le t1 r1 s1 t2 r2 s2 : SN t1 r1 s1 -> SN t2 r2 s2 -> t1 <= t2 -> r1 <= r2.
   Proof.
     intros H1 H2 Hle. destruct (N.le_gt_cases r1 r2) as [H|H]; [exact H|].
     pose proof (proj2 (SNinj _ _ _ _ _ _ H2 H1) H). lia.
+  Qed.
+
+  (* the snapshot of a tick is unique *)
+  Lemma SN_tick_inj t r1 s1 r2 s2 : SN t r1 s1 -> SN t r2 s2 -> r1 = r2 /\ s1 = s2.
+  Proof.
+    intros H1 H2. assert (E : r1 = r2).
+    { destruct (N.lt_trichotomy r1 r2) as [H|[H|H]]; [|exact H|].
+      - pose proof (proj2 (SNinj _ _ _ _ _ _ H1 H2) H). lia.
+      - pose proof (proj2 (SNinj _ _ _ _ _ _ H2 H1) H). lia. }
+    split; [exact E|]. exact (proj2 (proj1 (SNinj _ _ _ _ _ _ H1 H2) E)).
+  Qed.
+
+  (* the stamp a message was built against is not newer than the snapshot the client has confirmed *)
+  Lemma conf_stamp_le s c pend g e a x0 h0 r0 s0 :
+    conf_since SN s c pend g e a -> (forall t, ~ will_conf pend g e t) -> has c e x0 h0 -> SN (h_last h0) r0 s0 -> a <= r0.
+  Proof.
+    intros (t_a & s_a & Ha & Hcg) Hnw Hhas H0.
+    destruct Hcg as [Hw|[(x & h & Hh & Hta)|(_ & Hnone & _)]].
+    - exfalso. exact (Hnw t_a Hw).
+    - destruct (has_fun c e x0 h0 x h Hhas Hh) as [-> ->]. exact (SN_le _ _ _ _ _ _ Ha H0 Hta).
+    - exfalso. destruct Hhas as [Hc _]. congruence.
+  Qed.
+
+  (* the kinds of a replica, read from the structure *)
+  Lemma cs_get_has c e x h : has c e x h -> cs_get c e = Some (map fst (ce_comps x)).
+  Proof.
+    intros (Hc & Ha & Hm & _). destruct (centof_some_mapped c e x Hc) as [cid [Hs Hx]]. unfold cs_get. rewrite Hs, Hx, Ha, Hm. reflexivity.
+  Qed.
+
+  Lemma struct_has c s1 e x h : cs_inv c -> ents_wf s1 -> struct_equiv (client_struct c) (struct_of s1) -> has c e x h ->
+    exists x1, repl_get s1 e = Some x1 /\ kinds_equiv (map fst (ce_comps x)) (map fst (se_comps x1)).
+  Proof.
+    intros Hcs Hwf Hst Hh. specialize (Hst e). rewrite (al_get_client_struct c e (cs_inv_nodup c Hcs)), (cs_get_has c e x h Hh) in Hst.
+    rewrite (al_get_struct_of s1 e Hwf) in Hst. destruct (repl_get s1 e) as [x1|]; cbn [option_map] in Hst; [|destruct Hst].
+    exists x1. split; [reflexivity|exact Hst].
   Qed.
 
   (* ---------- the old values that a message does not overwrite ---------- *)
@@ -188,23 +238,35 @@ Section CliInv.
 
     Section UpdT.
       Hypothesis HT : forall e x h, has c e x h ->
-        exists r s1 x1, SN (h_last h) r s1 /\ get_ent s1 e = Some x1 /\ agree (ce_comps x) (se_comps x1).
+        exists r s1 x1, SN (h_last h) r s1 /\ repl_get s1 e = Some x1 /\ agree (ce_comps x) (se_comps x1) /\
+                        kinds_equiv (map fst (ce_comps x)) (map fst (se_comps x1)).
       Hypothesis Hok : upd_ok SN s c (u :: rest) u.
       Hypothesis Hincr : ticks_incr (u :: rest).
+      Hypothesis Hstruct : exists r s1, SN (u_tick u) r s1 /\ struct_equiv (abs_apply (client_struct c) u) (struct_of s1).
 
       Lemma upd_no_will e t : ~ will_conf (u :: rest) (u_tick u) e t.
       Proof.
         intros (u0 & Hin & Hlt & _). destruct Hin as [<-|Hin]; [lia|]. pose proof (ticks_incr_head u rest Hincr u0 Hin). lia.
       Qed.
 
+      Lemma upd_struct' : exists r s1, SN (u_tick u) r s1 /\ struct_equiv (client_struct c') (struct_of s1).
+      Proof.
+        destruct Hstruct as (r & s1 & Hsn & Hst). exists r, s1. split; [exact Hsn|].
+        eapply struct_equiv_trans; [|exact Hst]. exact (proj1 (update_message_struct c u c' Hcs (proj1 Hshape) Happ)).
+      Qed.
+
       Lemma upd_T e x' h' : has c' e x' h' ->
-        exists r s1 x1, SN (h_last h') r s1 /\ get_ent s1 e = Some x1 /\ agree (ce_comps x') (se_comps x1).
+        exists r s1 x1, SN (h_last h') r s1 /\ repl_get s1 e = Some x1 /\ agree (ce_comps x') (se_comps x1) /\
+                        kinds_equiv (map fst (ce_comps x')) (map fst (se_comps x1)).
       Proof.
         intros Hh'. destruct (touched u e) eqn:Et.
         - apply touched_mentions in Et. destruct (upd_touched e Et) as (G & x'' & h'' & Hh'' & Hl & Hcomps).
-          destruct (has_fun c' e x'' h'' x' h' Hh'' Hh') as [-> ->].
+          destruct (has_fun c' e x' h' x'' h'' Hh' Hh'') as [-> ->].
           destruct Hok as (_ & r & s1 & Hsn & Hprom). destruct (Hprom e Et) as ((Hnd & x1 & Hx1 & Hvals) & Hcover).
-          exists r, s1, x1. rewrite Hl. split; [exact Hsn|]. split; [exact Hx1|]. rewrite Hcomps.
+          destruct upd_struct' as (r2 & s2 & Hsn2 & Hst2). destruct (SN_tick_inj _ _ _ _ _ Hsn Hsn2) as [<- <-].
+          destruct (struct_has c' s1 e x' h' upd_cs (SNwf _ _ _ Hsn) Hst2 Hh') as (x1' & Hr1 & Hk1).
+          assert (x1' = x1) by (pose proof (repl_get_ent s1 e x1' Hr1); congruence). subst x1'.
+          exists r, s1, x1. rewrite Hl. split; [exact Hsn|]. split; [exact Hr1|]. split; [|exact Hk1]. rewrite Hcomps.
           apply agree_write; [exact Hnd| |].
           + intros k v Hin. destruct (Hvals k v Hin) as [_ H]. exact H.
           + intros k cv cc Hkv Hold Hcc.
@@ -215,8 +277,10 @@ Section CliInv.
             assert (Hle : h_last h0 <= u_tick u).
             { pose proof (G x0 h0 eq_refl (proj2 (proj2 (proj2 Hh0)))) as Hge.
               rewrite (tick_geb_small _ _ Hsu (Hhs e x0 h0 Hh0)) in Hge. lia. }
-            exact (old_value_ok s c (u :: rest) (u_tick u) e _ s1 x1 (u_tick u) r x0 h0 Hsn Hx1 Hcover (upd_no_will e) Hh0 Hle
-                     (HT e x0 h0 Hh0) k cv cc Hkv Hold Hcc).
+            destruct (HT e x0 h0 Hh0) as (r0 & s0 & x00 & H0 & Hr0 & Hag0 & _).
+            refine (old_value_ok s c (u :: rest) (u_tick u) e _ s1 x1 (u_tick u) r x0 h0 Hsn Hx1 Hcover (upd_no_will e) Hh0 Hle
+                     _ k cv cc Hkv Hold Hcc).
+            exists r0, s0, x00. split; [exact H0|]. split; [exact (repl_get_ent s0 e x00 Hr0)|exact Hag0].
         - assert (Hnm : ~ mentions u e) by (intros Hm; apply touched_mentions in Hm; congruence).
           pose proof (upd_untouched e Hnm) as V. destruct Hh' as (Hc' & A & B & C). rewrite Hc' in V.
           destruct (mem_N e (u_despawns u)); [discriminate|]. symmetry in V. apply (HT e x' h'). split; [exact V|auto].
@@ -225,7 +289,7 @@ Section CliInv.
   End Update.
 
   Lemma cli_has_small s c pend muts e x h : cli_inv SN s c pend muts -> has c e x h -> small_tick (h_last h).
-  Proof. intros Hi Hh. destruct (cv_T SN s c pend muts Hi e x h Hh) as (r & s1 & _ & Hsn & _). exact (SNsmall _ _ _ Hsn). Qed.
+  Proof. intros Hi Hh. destruct (cv_T SN s c pend muts Hi e x h Hh) as (r & s1 & x1 & Hsn & _). exact (SNsmall _ _ _ Hsn). Qed.
 
   Lemma ent_promise_mono s c pend g s' c' pend' g' s1 e vals :
     (forall a, conf_since SN s c pend g e a -> conf_since SN s' c' pend' g' e a) ->
@@ -248,23 +312,32 @@ Section CliInv.
     mut_ok SN s c pend m -> mut_ok SN s' c' pend' m.
   Proof.
     intros H (Hle & r & s1 & Hsn & Hp). split; [exact Hle|]. exists r, s1. split; [exact Hsn|]. intros e vals Hin.
-    destruct (Hp e vals Hin) as (Hv & a & Hs & Hcs). split; [exact Hv|]. exists a. split; [exact Hs|exact (H e a Hcs)].
+    destruct (Hp e vals Hin) as (Hv & a & Hs & Hcs & Hks). split; [exact Hv|]. exists a. split; [exact Hs|]. split; [exact (H e a Hcs)|exact Hks].
   Qed.
 
   Lemma desp_ok_tail s u rest : desp_ok s (u :: rest) -> desp_ok s rest.
   Proof. intros H p u0 q E. apply (H (u :: p) u0 q). rewrite E. reflexivity. Qed.
 
 
+  Lemma fold_head_struct c u c' p : cs_inv c -> upd_shape u -> apply_update_message c u = Ok c' ->
+    struct_equiv (fold_left abs_apply p (client_struct c')) (fold_left abs_apply (u :: p) (client_struct c)).
+  Proof.
+    intros Hcs Hsh Happ. cbn [fold_left]. apply abs_apply_fold_equiv. exact (proj1 (update_message_struct c u c' Hcs (proj1 Hsh) Happ)).
+  Qed.
+
   Theorem cli_inv_update s c u rest muts c' :
     cli_inv SN s c (u :: rest) muts -> apply_update_message c u = Ok c' -> cli_inv SN s c' rest muts.
   Proof.
-    intros Hi Happ. pose proof Hi as [Hcs Hpu Hmo HT Hut Hlt Hincr Hpend Hmuts Hdesp].
+    intros Hi Happ. pose proof Hi as [Hcs Hpu Hmo HT Hut Hlt Hincr Hpend Hmuts Hdesp Hstr].
     pose proof (Hpend u (or_introl eq_refl)) as Hok. pose proof Hok as (Hshape & r & s1 & Hsn & _).
     assert (Hsu : small_tick (u_tick u)) by exact (SNsmall _ _ _ Hsn).
-    assert (Hhs : forall e x h, has c e x h -> small_tick (h_last h)) by (intros e x h; apply (cli_has_small s c _ muts e x h Hi)).
+    assert (Hhs : forall e x h, has c e x h -> small_tick (h_last h)).
+    { intros e x h Hh. destruct (HT e x h Hh) as (r0 & s0 & _ & H0 & _). exact (SNsmall _ _ _ H0). }
     assert (Hcf : forall g e a, conf_since SN s c (u :: rest) g e a -> conf_since SN s c' rest g e a).
     { intros g e a. apply (upd_conf_since s c u rest c'); assumption. }
     assert (Etk : cl_upd_tick c' = u_tick u) by exact (proj1 (proj2 (update_view c u c' Hcs Hshape Happ))).
+    assert (Hstruct : exists r s1, SN (u_tick u) r s1 /\ struct_equiv (abs_apply (client_struct c) u) (struct_of s1)).
+    { destruct (Hstr [] u rest eq_refl) as (r2 & s2 & H2 & E2). exists r2, s2. split; [exact H2|exact E2]. }
     constructor.
     - apply (upd_cs c u c'); assumption.
     - exact (pu_update_nomaps c u c' Hpu (proj1 Hshape) Happ).
@@ -276,28 +349,48 @@ Section CliInv.
     - intros u' Hu'. apply (upd_ok_mono s c (u :: rest)); [intros e a; apply Hcf|]. apply Hpend. right. exact Hu'.
     - intros m Hm. apply (mut_ok_mono s c (u :: rest)); [intros e a; apply Hcf|]. exact (Hmuts m Hm).
     - exact (desp_ok_tail s u rest Hdesp).
+    - intros p u' q E. destruct (Hstr (u :: p) u' q) as (r2 & s2 & H2 & E2); [rewrite E; reflexivity|].
+      exists r2, s2. split; [exact H2|]. eapply struct_equiv_trans; [|exact E2]. exact (fold_head_struct c u c' (p ++ [u']) Hcs Hshape Happ).
   Qed.
 
   Lemma srv_slot_mono s cl c pend muts acks s' c' pend' :
-    sv_tick s' = sv_tick s -> (forall u, In u pend' -> In u pend) ->
+    sv_tick s' = sv_tick s -> sv_now s' = sv_now s -> (forall u, In u pend' -> In u pend) ->
     (forall g e a, conf_since SN s c pend g e a -> conf_since SN s' c' pend' g e a) ->
+    struct_equiv (fold_left abs_apply pend' (client_struct c')) (fold_left abs_apply pend (client_struct c)) ->
+    last (map u_tick pend') (cl_upd_tick c') = last (map u_tick pend) (cl_upd_tick c) ->
     srv_slot_inv SN s cl c pend muts acks -> srv_slot_inv SN s' cl c' pend' muts acks.
   Proof.
-    intros Et Hsub H [H1 H2 H3 H4 H5 H6 H7 H8].
-    constructor; [|intros i info e Hi Hinfo He; apply H; exact (H2 i info e Hi Hinfo He)|exact H3|exact H4|exact H5|rewrite Et; exact H6| |exact H8].
-    - intros e a Hst. rewrite Et. apply H. exact (H1 e a Hst).
+    intros Et En Hsub H Hst Hl [H1 H2 H3 H4 H5 H6 H7 H8 H9 H10 H11 H12].
+    constructor.
+    - intros e a Hst0. rewrite Et. apply H. exact (H1 e a Hst0).
+    - intros i info e Hi Hinfo He. apply H. exact (H2 i info e Hi Hinfo He).
+    - exact H3.
+    - exact H4.
+    - exact H5.
+    - rewrite Et. exact H6.
     - intros u Hu. apply H7. apply Hsub. exact Hu.
+    - exact H8.
+    - intros e a Hst0 t r s0 Hs0 Hle. eapply opt_equiv_trans; [exact (H9 e a Hst0 t r s0 Hs0 Hle)|].
+      apply opt_equiv_sym. exact (proj1 (struct_equiv_pointwise _ _) Hst e).
+    - rewrite En. exact H10.
+    - exact H11.
+    - rewrite Hl. exact H12.
   Qed.
 
   Theorem srv_slot_update s cl c u rest muts acks c' :
     cli_inv SN s c (u :: rest) muts -> apply_update_message c u = Ok c' ->
     srv_slot_inv SN s cl c (u :: rest) muts acks -> srv_slot_inv SN s cl c' rest muts acks.
   Proof.
-    intros Hi Happ. pose proof Hi as [Hcs Hpu Hmo HT Hut Hlt Hincr Hpend Hmuts Hdesp].
+    intros Hi Happ. pose proof Hi as [Hcs Hpu Hmo HT Hut Hlt Hincr Hpend Hmuts Hdesp Hstr].
     pose proof (Hpend u (or_introl eq_refl)) as (Hshape & r & s1 & Hsn & _).
     assert (Hsu : small_tick (u_tick u)) by exact (SNsmall _ _ _ Hsn).
-    assert (Hhs : forall e x h, has c e x h -> small_tick (h_last h)) by (intros e x h; apply (cli_has_small s c _ muts e x h Hi)).
-    apply srv_slot_mono; [reflexivity|intros u0 Hu0; right; exact Hu0|]. intros g e a. apply (upd_conf_since s c u rest c'); assumption.
+    assert (Hhs : forall e x h, has c e x h -> small_tick (h_last h)).
+    { intros e x h Hh. destruct (HT e x h Hh) as (r0 & s0 & _ & H0 & _). exact (SNsmall _ _ _ H0). }
+    apply srv_slot_mono; [reflexivity|reflexivity|intros u0 Hu0; right; exact Hu0| | |].
+    - intros g e a. apply (upd_conf_since s c u rest c'); assumption.
+    - exact (fold_head_struct c u c' rest Hcs Hshape Happ).
+    - rewrite (proj1 (proj2 (update_view c u c' Hcs Hshape Happ))). cbn [map]. destruct rest as [|u0 t0]; [reflexivity|].
+      cbn [map last]. apply last_cons_indep.
   Qed.
 
   (* ================================================================ *)
@@ -332,12 +425,41 @@ Section CliInv.
     Lemma mut_small : small_tick (m_tick m).
     Proof. destruct Hok as (_ & r1 & s1 & Hsn & _). exact (SNsmall _ _ _ Hsn). Qed.
 
+    Lemma mut_applied x h x' : has c e0 x h -> h_last h < m_tick m -> ce_comps x' = wr_comps vals (ce_comps x) ->
+      exists r1 s1 xs, SN (m_tick m) r1 s1 /\ repl_get s1 e0 = Some xs /\ agree (ce_comps x') (se_comps xs) /\
+        kinds_equiv (map fst (ce_comps x')) (map fst (se_comps xs)) /\
+        kinds_equiv (map fst (ce_comps x')) (map fst (ce_comps x)).
+    Proof.
+      intros Hh Hlt0 Hcomps. pose proof Hi as [Hcs Hpu Hmo HT Hut Hlt Hincr Hpend Hmuts Hdesp Hstr].
+      destruct Hok as (_ & r1 & s1 & Hsn & Hp). destruct (Hp e0 vals Hin) as ((Hnd & xs & Hxs & Hv) & a & Hsince & Hconf & Hks).
+      destruct (HT e0 x h Hh) as (r0 & s0 & x0 & H0 & Hr0 & Hag0 & Hk0).
+      assert (Ha0 : a <= r0) by exact (conf_stamp_le s c pend _ e0 a x h r0 s0 Hconf (mut_no_will e0) Hh H0).
+      assert (H01 : r0 <= r1) by (apply (SN_le _ _ _ _ _ _ H0 Hsn); lia).
+      pose proof (Hks _ r0 s0 H0 Ha0 H01) as Hst. rewrite (al_get_struct_of s0 e0 (SNwf _ _ _ H0)), (al_get_struct_of s1 e0 (SNwf _ _ _ Hsn)), Hr0 in Hst.
+      cbn [option_map] in Hst. destruct (repl_get s1 e0) as [xs'|] eqn:Er1; cbn [option_map opt_equiv] in Hst; [|destruct Hst].
+      assert (xs' = xs) by (pose proof (repl_get_ent s1 e0 xs' Er1); congruence). subst xs'.
+      assert (Hsub : forall k, mem_N k (map fst vals) = true -> mem_N k (map fst (se_comps xs)) = true).
+      { intros k Hk. apply mem_N_In in Hk. apply in_map_iff in Hk. destruct Hk as [[k0 v] [E Hkv]]. cbn in E. subst k0.
+        destruct (Hv k v Hkv) as (_ & cc & Hcc & _). rewrite mem_keys_get, Hcc. reflexivity. }
+      assert (Hkeys : forall k, mem_N k (map fst (ce_comps x')) = mem_N k (map fst (ce_comps x)) || mem_N k (map fst vals)).
+      { intros k. rewrite Hcomps, (wr_comps_mem vals (ce_comps x) k Hnd). apply orb_comm. }
+      exists r1, s1, xs. split; [exact Hsn|]. split; [exact Er1|]. split; [|split].
+      - rewrite Hcomps. apply agree_write0; [exact Hnd|intros k v Hkv; exact (proj2 (Hv k v Hkv))|].
+        intros k cv cc Hkv Hold Hcc.
+        refine (old_value_ok s c pend (m_upd_tick m + 1) e0 vals s1 xs (m_tick m) r1 x h Hsn Hxs _ (mut_no_will e0) Hh _ _ k cv cc Hkv Hold Hcc); [|lia|].
+        + right. exists a. auto.
+        + exists r0, s0, x0. split; [exact H0|]. split; [exact (repl_get_ent s0 e0 x0 Hr0)|exact Hag0].
+      - intros k. rewrite Hkeys, (Hk0 k), (Hst k). destruct (mem_N k (map fst vals)) eqn:Ev; [rewrite (Hsub k Ev); apply orb_true_r|apply orb_false_r].
+      - intros k. rewrite Hkeys. destruct (mem_N k (map fst vals)) eqn:Ev; [|apply orb_false_r].
+        rewrite (Hk0 k), (Hst k), (Hsub k Ev). reflexivity.
+    Qed.
+
     Theorem mut_step :
       exists c', r = Continue c' /\ cli_inv SN s c' pend muts /\
         (forall g e t, cg s c pend g e t -> cg s c' pend g e t) /\
-        cg s c' pend 0 e0 (m_tick m) /\ same_meta c c'.
+        cg s c' pend 0 e0 (m_tick m) /\ same_meta c c' /\ struct_equiv (client_struct c') (client_struct c).
     Proof.
-      pose proof Hi as [Hcs Hpu Hmo HT Hut Hlt Hincr Hpend Hmuts Hdesp].
+      pose proof Hi as [Hcs Hpu Hmo HT Hut Hlt Hincr Hpend Hmuts Hdesp Hstr].
       destruct (mutation_view c (m_tick m) e0 vals r Hcs Hmo mut_vals_nat Happ) as (c' & -> & Hcs' & Es2c & Hoth & Hcase).
       exists c'. split; [reflexivity|].
       assert (Etk : cl_upd_tick c' = cl_upd_tick c).
@@ -370,7 +492,17 @@ Section CliInv.
           + rewrite (Hoth e Hne). exact Hn. }
       assert (Hcf : forall g e a, conf_since SN s c pend g e a -> conf_since SN s c' pend g e a).
       { intros g e a (t_a & s_a & H1 & H2). exists t_a, s_a. split; [exact H1|exact (Hcg g e t_a H2)]. }
-      split; [|split; [exact Hcg|split; [|exact (same_meta_mutations c (m_tick m) e0 vals _ Happ)]]].
+      assert (Hst : struct_equiv (client_struct c') (client_struct c)).
+      { destruct Hcases as [->|(x & h & x' & h' & Hh & Hlt0 & Hh' & Hl' & Hcomps)]; [apply struct_equiv_refl|].
+        destruct (mut_applied x h x' Hh Hlt0 Hcomps) as (_ & _ & _ & _ & _ & _ & _ & Hkx).
+        intros e. rewrite (al_get_client_struct c' e (cs_inv_nodup c' Hcs')), (al_get_client_struct c e (cs_inv_nodup c Hcs)).
+        destruct (N.eq_dec e e0) as [->|Hne].
+        - rewrite (cs_get_has c' e0 x' h' Hh'), (cs_get_has c e0 x h Hh). exact Hkx.
+        - assert (E : cs_get c' e = cs_get c e).
+          { unfold cs_get. rewrite Es2c. pose proof (Hoth e Hne) as Ho. unfold centof in Ho. rewrite Es2c in Ho.
+            destruct (al_get e (cl_s2c c)); [rewrite Ho; reflexivity|reflexivity]. }
+          rewrite E. apply opt_equiv_refl. }
+      split; [|split; [exact Hcg|split; [|split; [exact (same_meta_mutations c (m_tick m) e0 vals _ Happ)|exact Hst]]]].
       - constructor.
         + exact Hcs'.
         + exact (pu_mutations c (m_tick m) e0 vals _ Hpu Happ).
@@ -379,19 +511,17 @@ Section CliInv.
           destruct (N.eq_dec e e0) as [->|Hne]; [exists x', h'; exact Hh'|exists x1, h1; apply Hsame; assumption].
         + intros e x1 h1 Hh1. destruct Hcases as [->|(x & h & x' & h' & Hh & Hlt0 & Hh' & Hl' & Hcomps)]; [exact (HT e x1 h1 Hh1)|].
           destruct (N.eq_dec e e0) as [->|Hne]; [|apply HT; apply Hsame; assumption].
-          destruct (has_fun c' e0 x' h' x1 h1 Hh' Hh1) as [-> ->].
-          destruct Hok as (_ & r1 & s1 & Hsn & Hp). destruct (Hp e0 vals Hin) as ((Hnd & xs & Hxs & Hv) & a & Hsince & Hconf).
-          exists r1, s1, xs. rewrite Hl'. split; [exact Hsn|]. split; [exact Hxs|]. rewrite Hcomps.
-          apply agree_write0; [exact Hnd|intros k v Hkv; exact (proj2 (Hv k v Hkv))|].
-          intros k cv cc Hkv Hold Hcc.
-          refine (old_value_ok s c pend (m_upd_tick m + 1) e0 vals s1 xs (m_tick m) r1 x h Hsn Hxs _ (mut_no_will e0) Hh _ (HT e0 x h Hh) k cv cc Hkv Hold Hcc); [|lia].
-          right. exists a. auto.
+          destruct (has_fun c' e0 x1 h1 x' h' Hh1 Hh') as [-> ->].
+          destruct (mut_applied x h x1 Hh Hlt0 Hcomps) as (r1 & s1 & xs & Hsn & Hrs & Hag & Hk1 & _).
+          exists r1, s1, xs. rewrite Hl'. auto.
         + rewrite Etk. exact Hut.
         + intros u0 Hu0. rewrite Etk. exact (Hlt u0 Hu0).
         + exact Hincr.
         + intros u0 Hu0. apply (upd_ok_mono s c pend); [intros e a; apply Hcf|exact (Hpend u0 Hu0)].
         + intros m0 Hm0. apply (mut_ok_mono s c pend); [intros e a; apply Hcf|exact (Hmuts m0 Hm0)].
         + exact Hdesp.
+        + intros p u q E. destruct (Hstr p u q E) as (r2 & s2 & H2 & E2). exists r2, s2. split; [exact H2|].
+          eapply struct_equiv_trans; [|exact E2]. apply abs_apply_fold_equiv. exact Hst.
       - (* the entry has been processed: confirmed at the tick of the message or later, or gone *)
         destruct (centof c e0) as [x|] eqn:Ec0.
         + destruct (centof_some_mapped c e0 x Ec0) as [cid0 [Hs0 _]]. destruct (Hmo e0 cid0 Hs0) as (x0 & h0 & Hh0).
@@ -405,7 +535,7 @@ Section CliInv.
             destruct Hc as (_ & x' & Hx' & (_ & _ & h' & Hh' & Hl') & _). destruct Hh0 as (E0 & _ & _ & E3).
             rewrite E0 in Hx'. inversion Hx'; subst x'. rewrite E3 in Hh'. inversion Hh'; subst h'. lia.
           * right. left. exists x', h'. split; [exact Hh'|lia].
-        + subst c'. destruct Hok as (_ & r1 & s1 & Hsn & Hp). destruct (Hp e0 vals Hin) as (_ & a & _ & (t_a & s_a & _ & Hc)).
+        + subst c'. destruct Hok as (_ & r1 & s1 & Hsn & Hp). destruct (Hp e0 vals Hin) as (_ & a & _ & (t_a & s_a & _ & Hc) & _).
           destruct Hc as [Hw|[(x & h & (Hc0 & _) & _)|Hg]].
           * exfalso. exact (mut_no_will e0 t_a Hw).
           * congruence.
@@ -431,18 +561,30 @@ Section CliInv.
     (forall t, cg s c pend g e t -> cg s' c' pend' g' e t) -> conf_since SN s c pend g e a -> conf_since SN s' c' pend' g' e a.
   Proof. intros H (t_a & s_a & H1 & H2). exists t_a, s_a. split; [exact H1|exact (H t_a H2)]. Qed.
 
+  Lemma client_struct_centof c c' : cs_inv c -> cs_inv c' -> cl_s2c c' = cl_s2c c -> (forall e, centof c' e = centof c e) ->
+    struct_equiv (client_struct c') (client_struct c).
+  Proof.
+    intros Hcs Hcs' E1 Hc e. rewrite (al_get_client_struct c' e (cs_inv_nodup c' Hcs')), (al_get_client_struct c e (cs_inv_nodup c Hcs)).
+    assert (E : cs_get c' e = cs_get c e).
+    { unfold cs_get. rewrite E1. pose proof (Hc e) as Ho. unfold centof in Ho. rewrite E1 in Ho.
+      destruct (al_get e (cl_s2c c)); [rewrite Ho; reflexivity|reflexivity]. }
+    rewrite E. apply opt_equiv_refl.
+  Qed.
+
   Lemma cli_inv_centof s c c' pend muts :
     cl_s2c c' = cl_s2c c -> (forall e, centof c' e = centof c e) -> cs_inv c' -> pu c' -> cl_upd_tick c' = cl_upd_tick c ->
     cli_inv SN s c pend muts -> cli_inv SN s c' pend muts.
   Proof.
-    intros E1 Hc Hcs' Hpu' Etk [Hcs Hpu Hmo HT Hut Hlt Hincr Hpend Hmuts Hdesp].
+    intros E1 Hc Hcs' Hpu' Etk [Hcs Hpu Hmo HT Hut Hlt Hincr Hpend Hmuts Hdesp Hstr].
     assert (Hcf : forall g e a, conf_since SN s c pend g e a -> conf_since SN s c' pend g e a).
     { intros g e a. apply conf_since_cg. intros t. apply cg_ext. exact Hc. }
-    constructor; [exact Hcs'|exact Hpu'| | |rewrite Etk; exact Hut|intros u Hu; rewrite Etk; exact (Hlt u Hu)|exact Hincr| | |exact Hdesp].
+    constructor; [exact Hcs'|exact Hpu'| | |rewrite Etk; exact Hut|intros u Hu; rewrite Etk; exact (Hlt u Hu)|exact Hincr| | |exact Hdesp|].
     - intros e cid Hs. rewrite E1 in Hs. destruct (Hmo e cid Hs) as (x & h & Hh). exists x, h. apply (has_ext c c'); assumption.
     - intros e x h Hh. apply HT. apply (has_ext c c'); assumption.
     - intros u Hu. apply (upd_ok_mono s c pend); [intros e a; apply Hcf|exact (Hpend u Hu)].
     - intros m Hm. apply (mut_ok_mono s c pend); [intros e a; apply Hcf|exact (Hmuts m Hm)].
+    - intros p u q E. destruct (Hstr p u q E) as (r2 & s2 & H2 & E2). exists r2, s2. split; [exact H2|].
+      eapply struct_equiv_trans; [|exact E2]. apply abs_apply_fold_equiv. exact (client_struct_centof c c' Hcs Hcs' E1 Hc).
   Qed.
 
   Lemma cli_inv_ext s c c' pend muts :
@@ -456,7 +598,7 @@ Section CliInv.
   Qed.
 
   Lemma cli_inv_muts s c pend muts muts' : (forall m, In m muts' -> In m muts) -> cli_inv SN s c pend muts -> cli_inv SN s c pend muts'.
-  Proof. intros H [H1 H2 H3 H4 H5 H6 H7 H8 H9 H10]. constructor; try assumption. intros m Hm. apply H9. apply H. exact Hm. Qed.
+  Proof. intros H [H1 H2 H3 H4 H5 H6 H7 H8 H9 H10 H11]. constructor; try assumption. intros m Hm. apply H9. apply H. exact Hm. Qed.
 
   (* client operations *)
   Lemma centof_cop c op e : cs_inv c -> cop_safe c op = true -> centof (apply_cop c op) e = centof c e.
@@ -496,20 +638,21 @@ Section CliInv.
     run_array (fun c b => apply_mutations c (m_tick m) (fst b) (snd b)) body c0 = Ok r ->
     exists c1, r = Continue c1 /\ cli_inv SN s c1 pend muts /\
       (forall g e t, cg s c0 pend g e t -> cg s c1 pend g e t) /\ same_meta c0 c1 /\
+      struct_equiv (client_struct c1) (client_struct c0) /\
       forall e vals, In (e, vals) body -> cg s c1 pend 0 e (m_tick m).
   Proof.
     induction body as [|[e0 vals] t IH]; intros c0 r Hincl Hi Hok Hgate H.
     - rewrite run_array_nil in H. inversion H; subst r. exists c0. split; [reflexivity|]. split; [exact Hi|]. split; [auto|].
-      split; [apply same_meta_refl|intros e vals []].
+      split; [apply same_meta_refl|]. split; [apply struct_equiv_refl|intros e vals []].
     - rewrite run_array_cons in H. cbn [fst snd] in H.
       destruct (apply_mutations c0 (m_tick m) e0 vals) as [r0| |] eqn:E0; try discriminate.
-      destruct (mut_step s c0 pend muts m e0 vals r0 Hi Hok Hgate (Hincl _ (or_introl eq_refl)) E0) as (c1 & -> & Hi1 & Hcg1 & Hack1 & Hsm1).
+      destruct (mut_step s c0 pend muts m e0 vals r0 Hi Hok Hgate (Hincl _ (or_introl eq_refl)) E0) as (c1 & -> & Hi1 & Hcg1 & Hack1 & Hsm1 & Hst1).
       assert (Hok1 : mut_ok SN s c1 pend m).
       { apply (mut_ok_mono s c0 pend); [|exact Hok]. intros e a. apply conf_since_cg. intros t0. apply Hcg1. }
       assert (Hgate1 : m_upd_tick m <= cl_upd_tick c1) by (destruct Hsm1 as (_ & _ & _ & E & _); rewrite E; exact Hgate).
-      destruct (IH c1 r (fun b Hb => Hincl b (or_intror Hb)) Hi1 Hok1 Hgate1 H) as (c2 & -> & Hi2 & Hcg2 & Hsm2 & Hack2).
+      destruct (IH c1 r (fun b Hb => Hincl b (or_intror Hb)) Hi1 Hok1 Hgate1 H) as (c2 & -> & Hi2 & Hcg2 & Hsm2 & Hst2 & Hack2).
       exists c2. split; [reflexivity|]. split; [exact Hi2|]. split; [intros g e t1 Hc; apply Hcg2; apply Hcg1; exact Hc|].
-      split; [exact (same_meta_trans _ _ _ Hsm1 Hsm2)|].
+      split; [exact (same_meta_trans _ _ _ Hsm1 Hsm2)|]. split; [exact (struct_equiv_trans _ _ _ Hst2 Hst1)|].
       intros e vals0 [Heq|Hin]; [inversion Heq; subst e vals0; apply Hcg2; exact Hack1|exact (Hack2 e vals0 Hin)].
   Qed.
 
@@ -528,19 +671,20 @@ Section CliInv.
     fold_left (res_step (mm_step upd)) l (Ok (c0, kept, acks, evs)) = Ok st' ->
     cli_inv SN s (mm_client st') pend muts /\ cl_upd_tick (mm_client st') = upd /\
     (forall g e t, cg s c0 pend g e t -> cg s (mm_client st') pend g e t) /\
+    struct_equiv (client_struct (mm_client st')) (client_struct c0) /\
     forall m, In m l -> gated upd m = false -> forall e vals, In (e, vals) (m_body m) -> cg s (mm_client st') pend 0 e (m_tick m).
   Proof.
     induction l as [|m t IH]; intros c0 kept acks evs st' Hsub Hi Etk H.
-    - cbn in H. inversion H; subst st'. unfold mm_client; cbn [fst]. split; [exact Hi|]. split; [exact Etk|]. split; [auto|intros m []].
+    - cbn in H. inversion H; subst st'. unfold mm_client; cbn [fst]. split; [exact Hi|]. split; [exact Etk|]. split; [auto|]. split; [apply struct_equiv_refl|intros m []].
     - apply fold_res_cons_ok in H. destruct H as [st1 [E1 H]]. cbn [mm_step] in E1.
       assert (Hm : In m muts) by (apply Hsub; left; reflexivity).
       pose proof (cv_muts SN s c0 pend muts Hi m Hm) as Hok.
       destruct (tick_gtb (m_upd_tick m) upd) eqn:Eg.
-      + inversion E1; subst st1. destruct (IH c0 _ _ _ st' (fun m0 H0 => Hsub m0 (or_intror H0)) Hi Etk H) as (A & B & C & D).
-        split; [exact A|]. split; [exact B|]. split; [exact C|]. intros m0 [<-|Hin] Hg; [unfold gated in Hg; congruence|exact (D m0 Hin Hg)].
+      + inversion E1; subst st1. destruct (IH c0 _ _ _ st' (fun m0 H0 => Hsub m0 (or_intror H0)) Hi Etk H) as (A & B & C & S0 & D).
+        split; [exact A|]. split; [exact B|]. split; [exact C|]. split; [exact S0|]. intros m0 [<-|Hin] Hg; [unfold gated in Hg; congruence|exact (D m0 Hin Hg)].
       + apply bind_ok in E1. destruct E1 as [r [Er E1]].
         assert (Hgate : m_upd_tick m <= cl_upd_tick c0) by (apply (gate_open s c0 pend muts m Hi Hok); unfold gated; rewrite Etk; exact Eg).
-        destruct (mut_body s pend muts m (m_body m) c0 r (fun b Hb => Hb) Hi Hok Hgate Er) as (c1 & -> & Hi1 & Hcg1 & Hsm1 & Hack1).
+        destruct (mut_body s pend muts m (m_body m) c0 r (fun b Hb => Hb) Hi Hok Hgate Er) as (c1 & -> & Hi1 & Hcg1 & Hsm1 & Hstb & Hack1).
         set (c1' := match cl_mticks c1 with Some _ => c1 | None => c1 end).
         assert (Hst1 : exists c2 k2 a2 e2, st1 = (c2, k2, a2, e2) /\ cl_s2c c2 = cl_s2c c1 /\ cl_c2s c2 = cl_c2s c1 /\
                         cl_ents c2 = cl_ents c1 /\ cl_next c2 = cl_next c1 /\ cl_upd_tick c2 = cl_upd_tick c1).
@@ -551,9 +695,11 @@ Section CliInv.
         assert (Hi2 : cli_inv SN s c2 pend muts) by (apply (cli_inv_ext s c1 c2); assumption).
         assert (Etk2 : cl_upd_tick c2 = upd) by (rewrite X5; destruct Hsm1 as (_ & _ & _ & E & _); rewrite E; exact Etk).
         assert (Hc21 : forall e, centof c2 e = centof c1 e) by (intros e; apply centof_ext; assumption).
-        destruct (IH c2 _ _ _ st' (fun m0 H0 => Hsub m0 (or_intror H0)) Hi2 Etk2 H) as (A & B & C & D).
-        split; [exact A|]. split; [exact B|]. split.
+        destruct (IH c2 _ _ _ st' (fun m0 H0 => Hsub m0 (or_intror H0)) Hi2 Etk2 H) as (A & B & C & S0 & D).
+        split; [exact A|]. split; [exact B|]. split; [|split].
         * intros g e t1 Hc. apply C. apply (cg_ext s c1 c2); [exact Hc21|]. apply Hcg1. exact Hc.
+        * eapply struct_equiv_trans; [exact S0|]. eapply struct_equiv_trans; [|exact Hstb].
+          exact (client_struct_centof c1 c2 (cv_cs SN s c1 pend muts Hi1) (cv_cs SN s c2 pend muts Hi2) X1 Hc21).
         * intros m0 [<-|Hin] Hg; [|exact (D m0 Hin Hg)]. intros e vals Hb. apply C. apply (cg_ext s c1 c2); [exact Hc21|]. exact (Hack1 e vals Hb).
   Qed.
 
@@ -565,15 +711,19 @@ Section CliInv.
     cli_inv SN s c (us ++ lupd) muts ->
     fold_left (res_step apply_update_message) us (Ok c) = Ok c1 ->
     cli_inv SN s c1 lupd muts /\
-    (forall g e a, conf_since SN s c (us ++ lupd) g e a -> conf_since SN s c1 lupd g e a) /\ same_buf c c1.
+    (forall g e a, conf_since SN s c (us ++ lupd) g e a -> conf_since SN s c1 lupd g e a) /\ same_buf c c1 /\
+    struct_equiv (fold_left abs_apply lupd (client_struct c1)) (fold_left abs_apply (us ++ lupd) (client_struct c)).
   Proof.
     induction us as [|u t IH]; intros c lupd c1 Hi H.
-    - cbn in H. inversion H; subst c1. split; [exact Hi|]. split; [auto|split; reflexivity].
+    - cbn in H. inversion H; subst c1. split; [exact Hi|]. split; [auto|]. split; [split; reflexivity|apply struct_equiv_refl].
     - apply fold_res_cons_ok in H. destruct H as [c2 [E H]]. cbn [app] in Hi.
       pose proof (cli_inv_update s c u (t ++ lupd) muts c2 Hi E) as Hi2.
-      destruct (IH c2 lupd c1 Hi2 H) as (A & B & [C1 C2]). split; [exact A|]. split.
+      destruct (IH c2 lupd c1 Hi2 H) as (A & B & [C1 C2] & S0).
+      pose proof Hi as [Hcs Hpu Hmo HT Hut Hlt Hincr Hpend Hmuts Hdesp Hstr].
+      pose proof (Hpend u (or_introl eq_refl)) as (Hshape0 & _).
+      split; [exact A|]. split; [|split].
+      3:{ eapply struct_equiv_trans; [exact S0|]. exact (fold_head_struct c u c2 (t ++ lupd) Hcs Hshape0 E). }
       + intros g e a Hc. apply B.
-        pose proof Hi as [Hcs Hpu Hmo HT Hut Hlt Hincr Hpend Hmuts Hdesp].
         pose proof (Hpend u (or_introl eq_refl)) as (Hshape & r & s1 & Hsn & _).
         assert (Hsu : small_tick (u_tick u)) by exact (SNsmall _ _ _ Hsn).
         assert (Hhs : forall e x h, has c e x h -> small_tick (h_last h)) by (intros e0 x h; apply (cli_has_small s c _ muts e0 x h Hi)).
@@ -589,15 +739,22 @@ Section CliInv.
     cl_inbox_upd c' = [] /\ cl_inbox_mut c' = [] /\ cl_status c' = Connected /\
     (forall m, In m (cl_buffered c') -> In m (cl_inbox_mut c ++ cl_buffered c)) /\
     (forall i, In i (cfo_acks out) -> exists m, In m (cl_inbox_mut c ++ cl_buffered c) /\ m_idx m = i /\
-       forall e vals, In (e, vals) (m_body m) -> cg s c' lupd 0 e (m_tick m)).
+       forall e vals, In (e, vals) (m_body m) -> cg s c' lupd 0 e (m_tick m)) /\
+    struct_equiv (fold_left abs_apply lupd (client_struct c')) (fold_left abs_apply (cl_inbox_upd c ++ lupd) (client_struct c)) /\
+    cl_upd_tick c' = last (map u_tick (cl_inbox_upd c)) (cl_upd_tick c) /\
+    cl_buffered c' = filter (gated (cl_upd_tick c')) (fold_left (fun b m => buffer_insert m b) (cl_inbox_mut c) (cl_buffered c)) /\
+    cfo_acks out = map m_idx (filter (fun m => negb (gated (cl_upd_tick c') m)) (fold_left (fun b m => buffer_insert m b) (cl_inbox_mut c) (cl_buffered c))).
   Proof.
     intros Hi Hsub Hc H.
+    assert (Htick' : cl_upd_tick c' = last (map u_tick (cl_inbox_upd c)) (cl_upd_tick c)).
+    { pose proof H as H'. unfold client_frame in H'. rewrite Hc, andb_false_r in H'. apply bind_ok in H'. destruct H' as [[c2' out2'] [E' H']].
+      inversion H'; subst c' out. cbn [set_locals cl_upd_tick]. rewrite cops_keep_tick. exact (replication_tick_is_last c c2' out2' E'). }
     destruct (frame_clears_inbox c ops c' out Hc H) as [Hinb Hst].
     unfold client_frame in H. rewrite Hc, andb_false_r in H.
     apply bind_ok in H. destruct H as [[c2 out2] [E H]]. inversion H; subst c' out. clear H.
     unfold apply_replication in E. apply bind_ok in E. destruct E as [c1 [E1 E]].
     change (fold_left (res_step apply_update_message) (cl_inbox_upd c) (Ok c) = Ok c1) in E1. fold (merge_mut_inbox c1) in E.
-    destruct (inbox_fold s muts _ c lupd c1 Hi E1) as (Hi1 & Hcf1 & [B1 B2]).
+    destruct (inbox_fold s muts _ c lupd c1 Hi E1) as (Hi1 & Hcf1 & [B1 B2] & Sfold).
     set (cm := merge_mut_inbox c1) in *.
     assert (Him : cli_inv SN s cm lupd muts) by (apply (cli_inv_ext s c1 cm); try reflexivity; exact Hi1).
     assert (Hcm1 : forall e, centof cm e = centof c1 e) by (intros e; apply centof_ext; reflexivity).
@@ -608,7 +765,7 @@ Section CliInv.
     pose proof (mutate_messages_keep_tick cm c2 out2 E) as Ktk.
     rewrite apply_mutate_messages_eq in E. apply bind_ok in E. destruct E as [st [Ef E]].
     destruct (mm_loop s lupd muts (cl_upd_tick cm) (cl_buffered cm) cm [] [] [] st (fun m Hm => Hsub m (Hbm m Hm)) Him eq_refl Ef)
-      as (His & Etks & Hcgs & Hacks).
+      as (His & Etks & Hcgs & Sloop & Hacks).
     destruct st as [[[c0 kept] acks] evs]. inversion E; subst c2 out2. clear E. unfold mm_client in *; cbn [fst] in *.
     set (c2 := set_buffered c0 kept (cl_mticks c0)) in *.
     assert (Hi2 : cli_inv SN s c2 lupd muts) by (apply (cli_inv_ext s c0 c2); try reflexivity; exact His).
@@ -629,9 +786,26 @@ Section CliInv.
     { cbn [set_locals cl_inbox_mut]. rewrite K2, Kim. reflexivity. }
     split; [exact Hst|]. split.
     { intros m Hin. cbn [set_locals cl_buffered] in Hin. rewrite K3, Kb in Hin. apply filter_In in Hin. exact (Hbm m (proj1 Hin)). }
-    intros i Hin. cbn [cfo_acks] in Ka. cbn [cfo_acks] in Hin. rewrite Ka in Hin. apply in_map_iff in Hin. destruct Hin as [m [Em Hin]].
-    apply filter_In in Hin. destruct Hin as [Hin Hg]. exists m. split; [exact (Hbm m Hin)|]. split; [exact Em|].
-    intros e vals Hb. apply (cg_ext s c0 (set_locals c3)); [exact Hall|].
-    apply (Hacks m Hin) with (vals := vals); [|exact Hb]. destruct (gated (cl_upd_tick cm) m); [discriminate|reflexivity].
+    split.
+    { intros i Hin. cbn [cfo_acks] in Ka. cbn [cfo_acks] in Hin. rewrite Ka in Hin. apply in_map_iff in Hin. destruct Hin as [m [Em Hin]].
+      apply filter_In in Hin. destruct Hin as [Hin Hg]. exists m. split; [exact (Hbm m Hin)|]. split; [exact Em|].
+      intros e vals Hb. apply (cg_ext s c0 (set_locals c3)); [exact Hall|].
+      apply (Hacks m Hin) with (vals := vals); [|exact Hb]. destruct (gated (cl_upd_tick cm) m); [discriminate|reflexivity]. }
+    (* the structure *)
+    assert (S3 : struct_equiv (client_struct (set_locals c3)) (client_struct c1)).
+    { assert (I3' : cs_inv (set_locals c3)) by (revert V1; apply cs_inv_ext; reflexivity).
+      eapply struct_equiv_trans; [exact (client_struct_centof c3 (set_locals c3) V1 I3' eq_refl Hc'3)|].
+      eapply struct_equiv_trans; [exact (client_struct_centof c2 c3 (cv_cs SN s c2 lupd muts Hi2) V1 V3 V4)|].
+      eapply struct_equiv_trans; [exact (client_struct_centof c0 c2 (cv_cs SN s c0 lupd muts His) (cv_cs SN s c2 lupd muts Hi2) eq_refl Hc20)|].
+      eapply struct_equiv_trans; [exact Sloop|].
+      exact (client_struct_centof c1 cm (cv_cs SN s c1 lupd muts Hi1) (cv_cs SN s cm lupd muts Him) eq_refl Hcm1). }
+    split; [eapply struct_equiv_trans; [|exact Sfold]; apply abs_apply_fold_equiv; exact S3|].
+    split; [exact Htick'|].
+    assert (Ecm : cl_buffered cm = fold_left (fun b m => buffer_insert m b) (cl_inbox_mut c) (cl_buffered c)).
+    { unfold cm, merge_mut_inbox. cbn. rewrite B1, B2. reflexivity. }
+    assert (Etcm : cl_upd_tick cm = cl_upd_tick (set_locals c3)).
+    { rewrite Htick'. unfold cm, merge_mut_inbox. cbn. exact (update_fold_tick _ _ _ E1). }
+    cbn [set_locals cl_buffered]. rewrite K3. change (cl_buffered c2) with kept. cbn [cfo_acks] in Ka.
+    change (cl_buffered (set_buffered c0 kept (cl_mticks c0))) with kept in Kb. rewrite <- Ecm, <- Etcm. split; [exact Kb|exact Ka].
   Qed.
 End CliInv.
